@@ -43,7 +43,7 @@ def plan(tier, seed):
     rng = P.rng("lls")
     for i in range(300 if quick else 5000):
         proxg = pick(rng, ["none", "l1", "l2", "box"])
-        G = pick(rng, ["none", "none", "square", "tall", "fd"])
+        G = pick(rng, ["none", "none", "square", "tall", "fd", "identity", "reshape"])
         Akind = pick(rng, ["tall", "tall", "square", "identity", "diag", "fftdiag", "fft"])
         if proxg == "box":
             G = "none"
@@ -180,6 +180,10 @@ def run_case(case):
             L.MatMul([n, 1], Gq) * L.Reshape([n, 1], xshape)
     elif kindG == "fd":
         G = L.FiniteDifference(xshape, axes=[0])
+    elif kindG == "identity":
+        G = L.Identity(xshape)                 # returns its input itself
+    elif kindG == "reshape":
+        G = L.Reshape([int(np.prod(xshape))], xshape)      # returns a view of its input
     if G is not None:
         Gm = dense(G)
         if not cplx:
@@ -235,7 +239,10 @@ def run_case(case):
         return val + OPT.g_value(g, (Gm @ xx) if Gm is not None else xx)
 
     # ---- options
-    kw = dict(proxg=proxg, lamda=lam, G=G, z=z, solver=solver, show_pbar=False,
+    # (the progress bar - on by default - in a sixth of the cases: its read-outs must neither
+    # fail nor touch the iterate; tqdm itself is silenced through TQDM_DISABLE)
+    kw = dict(proxg=proxg, lamda=lam, G=G, z=z, solver=solver,
+              show_pbar=bool(sum(case["rs"]) % 6 == 3), leave_pbar=False,
               max_iter=ITERS[eff], accelerate=case["acc"])
     if case["P"] and eff in ("ConjugateGradient", "ADMM"):
         d = np.real(np.diag(Hmat))
@@ -266,6 +273,8 @@ def run_case(case):
             x0 = np.minimum(np.maximum(x0, g[1].reshape(xshape)), g[2].reshape(xshape))
         kw["x"] = x0
     y_keep = y.copy()
+    steps_keep = {k_: kw[k_].copy() for k_ in ("tau", "sigma")
+                  if isinstance(kw.get(k_), np.ndarray)}
     layout = sum(case["rs"]) % 4
     if layout == 1:
         # read-only data (e.g. memory-mapped): a supported configuration must still run
@@ -333,6 +342,11 @@ def run_case(case):
                             gap, phis, obs["gap_rel"], tol, eff, app.alg.iter, obs["dist"]),
                         wit, mech="suboptimal:" + eff, obs=obs)
     checks = 1
+    for key in ("tau", "sigma"):
+        if isinstance(kw.get(key), np.ndarray) and not np.array_equal(kw[key], steps_keep[key]):
+            return violated(sig, "LinearLeastSquares (%s) modified the caller's %s array "
+                            "(a later solve from the same array would use other steps)" % (
+                                eff, key), wit, mech="caller-steps-modified:" + eff, obs=obs)
     if not obs["y_unchanged"]:
         # the documented objective is stated in terms of the y the caller holds: if the solve
         # overwrote that array, the returned x is not the minimiser for the caller's data any
